@@ -213,8 +213,45 @@ def commit_inv(E, fr, P):
     return [("membership", mk_bool(has_ok)), ("values", mk_bool(val_ok))]
 
 
+def commit_as_context(E, f, args, kwargs, body_cb):
+    """callee view of `with scratch.batch_commit(do_deletes=d): BODY` -- the block runs; if it completes, the
+    buffered writes (and, when requested, deletes) are applied to the wrapped store and the buffer is emptied; if it
+    raises, the wrapped store is untouched, the buffer is emptied and the exception propagates"""
+    s = args[0]
+    dd = kwargs.get("do_deletes", args[1] if len(args) > 1 else False)
+    W = s.fields["wrapped_db"]
+    try:
+        body_cb(None)
+    except PyRaise:
+        s.fields["cache"] = DictObj(None, None, None, None, None, name=E.fresh_name("cache"))
+        raise
+    C = s.fields["cache"]
+    if C.has is not None:
+        Ch, Cv = C.has, C.val
+        oldh, oldv = W.has, W.val
+        E.havoc_obj(W)
+        W.writes += 1
+        ddt = dd.t if isinstance(dd, SBool) else z3.BoolVal(bool(dd))
+        dl = _del_term(E)
+        k = z3.Const(E.fresh_name("k!commit"), SeqI)
+        livek = z3.And(z3.Select(Ch, k), z3.Select(Cv, k) != dl)
+        delk = z3.And(z3.Select(Ch, k), z3.Select(Cv, k) == dl)
+        if C.vkind == "py" and W.vkind == "py":
+            conv = lambda t: t
+        elif C.vkind == "py" and W.vkind == "bytes":
+            conv = lambda t: PyVal.pbytes(t)
+        else:
+            conv = lambda t: t
+        E.assume(mk_bool(z3.ForAll([k], z3.Select(W.has, k) == z3.If(livek, z3.BoolVal(True), z3.If(z3.And(delk, ddt), z3.BoolVal(False), z3.Select(oldh, k))),
+                                   patterns=[z3.Select(W.has, k)])))
+        E.assume(mk_bool(z3.ForAll([k], z3.Select(W.val, k) == z3.If(livek, conv(z3.Select(Cv, k)), z3.Select(oldv, k)),
+                                   patterns=[z3.Select(W.val, k)])))
+    s.fields["cache"] = DictObj(None, None, None, None, None, name=E.fresh_name("cache"))
+
+
 def register(reg):
     _register(reg)
+    reg.contracts[MOD + ":ScratchDB.batch_commit"].as_context = commit_as_context
     for q, op in (("__getitem__", "getitem"), ("__contains__", "contains"), ("__setitem__", "setitem"),
                   ("__delitem__", "delitem"), ("batch_commit", "commit")):
         c = reg.contracts[MOD + ":ScratchDB." + q]
